@@ -12,7 +12,7 @@ From V Require Import base.Cal gen.RrTables rr.RRBase rr.RRNorm rr.RRMasks rr.RR
   rr.RRSubAdvance rr.RRSetposThm rr.RRCoarseRun rr.RRMonthlyFullThm rr.RRMonthlyNthThm rr.RRYearlyFullThm
   rr.RRDailyFullThm rr.RRWeeklySetposThm rr.RRYearlyMonthNthThm rr.RRSortedThm rr.RRCoarseTop rr.RRNoRaise rr.RRStripThm rr.RRStripSubThm rr.RRValidThm rr.RRCompleteThm
   rr.RRSubSpBase rr.RRSubSpPass rr.RRSubSpFam rr.RRSubSpSame rr.RRSubSpAll rr.RRSubSorted rr.RRSubSpOrder rr.RRSubSpTerm
-  rr.RRAllFreqTop.
+  rr.RRAllFreqTop rr.RRDailyEasterThm rr.RRWeeklyEasterThm rr.RREasterTop rr.RRWkEasterStrip.
 Import ListNotations.
 Open Scope Z_scope.
 
@@ -485,19 +485,10 @@ Print Assumptions C01_rebuild_succeeds.
    RFC range -53..53: for every number of passes n that stays
    within year 9999 and every limit, model and specification yield the same instants in the same order
    (constructor + rebuild + day set + filter + time set + gate + advance, by induction over passes). *)
-Theorem C01_rrule_iter_correct_partial : forall r rl limit n,
-  normalize r = Ok rl -> yfam r -> 1 <= r_y r -> r_y r + Z.of_nat n * r_interval r <= 9999 ->
-  fst (iterate rl limit n) = fst (spec_iter r limit n).
-Proof. exact yearly_iter_correct. Qed.
-Print Assumptions C01_rrule_iter_correct_partial.
+(* C01_rrule_iter_correct_partial: superseded by the headline theorems; still proved in coq/rr, no longer restated here *)
 
 (* the same with BYEASTER, when every pass stays within the years of C19's theorem (1583..4098) *)
-Theorem C01_rrule_iter_correct_easter_partial : forall r rl limit n,
-  normalize r = Ok rl -> yfam_e r -> 1 <= r_y r -> r_y r + Z.of_nat n * r_interval r <= 9999 ->
-  (r_byeaster r = None \/ (1583 <= r_y r /\ r_y r + Z.of_nat n * r_interval r <= 4098)) ->
-  fst (iterate rl limit n) = fst (spec_iter r limit n).
-Proof. exact yearly_iter_correct_e. Qed.
-Print Assumptions C01_rrule_iter_correct_easter_partial.
+(* C01_rrule_iter_correct_easter_partial: superseded by the headline theorems; still proved in coq/rr, no longer restated here *)
 
 (* once COUNT is used up the generator's loop adds nothing more -- every rule, every frequency *)
 Theorem C01_count_exhausted_stops : forall rl limit n s,
@@ -508,12 +499,7 @@ Print Assumptions C01_count_exhausted_stops.
 (* the family theorem WITH COUNT (and optional BYEASTER); no UNTIL.  The specification stops at the
    beginning of the step after COUNT is used up, the code scans on: same yielded instants for every
    number of passes *)
-Theorem C01_rrule_iter_correct_count_partial : forall r rl limit n,
-  normalize r = Ok rl -> yfam_c r -> 1 <= r_y r -> r_y r + Z.of_nat n * r_interval r <= 9999 ->
-  (r_byeaster r = None \/ (1583 <= r_y r /\ r_y r + Z.of_nat n * r_interval r <= 4098)) ->
-  fst (iterate rl limit n) = fst (spec_iter r limit n).
-Proof. exact yearly_iter_correct_c. Qed.
-Print Assumptions C01_rrule_iter_correct_count_partial.
+(* C01_rrule_iter_correct_count_partial: superseded by the headline theorems; still proved in coq/rr, no longer restated here *)
 
 (* THE STRONGEST FORM PROVED: the family theorem with COUNT and UNTIL (and optional BYEASTER).
    yfam_u r = spec_wf r, FREQ = YEARLY, no BYSETPOS, BYDAY plain (no nth weekday), BYWEEKNO members in
@@ -523,20 +509,11 @@ Print Assumptions C01_rrule_iter_correct_count_partial.
    the model of dateutil's generator and the specification yield the same instants in the same
    order.  The specification stops period-wise on UNTIL / COUNT, the code at the first candidate that
    trips the gate (possibly one before dtstart) or never: the yielded instants agree all the same. *)
-Theorem C01_rrule_iter_correct_yearly_partial : forall r rl limit n,
-  normalize r = Ok rl -> yfam_u r -> 1 <= r_y r -> r_y r + Z.of_nat n * r_interval r <= 9999 ->
-  (r_byeaster r = None \/ (1583 <= r_y r /\ r_y r + Z.of_nat n * r_interval r <= 4098)) ->
-  fst (iterate rl limit n) = fst (spec_iter r limit n).
-Proof. exact yearly_iter_correct_u. Qed.
-Print Assumptions C01_rrule_iter_correct_yearly_partial.
+(* C01_rrule_iter_correct_yearly_partial: superseded by the headline theorems; still proved in coq/rr, no longer restated here *)
 
 (* the same for EVERY number of passes (no bound: when the next year would pass 9999 the code returns
    by the MAXYEAR test, the specification at the next step's range test), rules without BYEASTER *)
-Theorem C01_rrule_iter_correct_yearly_all_fuel_partial : forall r rl limit n,
-  normalize r = Ok rl -> yfam_u r -> r_byeaster r = None -> 1 <= r_y r ->
-  fst (iterate rl limit n) = fst (spec_iter r limit n).
-Proof. exact yearly_iter_correct_all. Qed.
-Print Assumptions C01_rrule_iter_correct_yearly_all_fuel_partial.
+(* C01_rrule_iter_correct_yearly_all_fuel_partial: superseded by the headline theorems; still proved in coq/rr, no longer restated here *)
 
 
 (* ------------------------------------------------------------------ layer 6, sub-daily advance (builder rset, coq/rr/RRSub*.v) *)
@@ -633,11 +610,7 @@ Print Assumptions C01_mdayset_correct.
 (* rrule_iter_correct for every MONTHLY rule without BYSETPOS / BYEASTER / nth weekday (BYMONTH, BYMONTHDAY,
    BYYEARDAY, plain BYDAY, BYWEEKNO in the RFC range; COUNT, UNTIL, any interval and time expansion),
    EVERY fuel *)
-Theorem C01_rrule_iter_correct_monthly_partial : forall r rl limit n,
-  normalize r = Ok rl -> mfam r ->
-  fst (iterate rl limit n) = fst (spec_iter r limit n).
-Proof. exact monthly_iter_correct. Qed.
-Print Assumptions C01_rrule_iter_correct_monthly_partial.
+(* C01_rrule_iter_correct_monthly_partial: superseded by the headline theorems; still proved in coq/rr, no longer restated here *)
 
 (* ------------------------------------------------------------------ sub-daily, batches 2 and 3 of builder rset *)
 Theorem C01_minutely_no_typeerror : forall r rl filtered k day,
@@ -727,11 +700,7 @@ Print Assumptions C01_rebuild_same_year.
    BYYEARDAY, plain BYDAY, BYWEEKNO in the RFC range; COUNT, UNTIL, any interval and time expansion),
    EVERY fuel: the cursor of pass k is the day start + k*interval (fixday carry loop), the iterinfo is
    rebuilt at month changes only *)
-Theorem C01_rrule_iter_correct_daily_partial : forall r rl limit n,
-  normalize r = Ok rl -> dfam r ->
-  fst (iterate rl limit n) = fst (spec_iter r limit n).
-Proof. exact daily_iter_correct. Qed.
-Print Assumptions C01_rrule_iter_correct_daily_partial.
+(* C01_rrule_iter_correct_daily_partial: superseded by the headline theorems; still proved in coq/rr, no longer restated here *)
 
 (* ---- WEEKLY *)
 (* the week's day set: from the cursor to the end of its WKST-week, possibly reaching into the 7-day
@@ -762,12 +731,7 @@ Print Assumptions C01_day_filter_correct_extension.
    BYYEARDAY, plain BYDAY incl. the default taken from the start, BYWEEKNO in the RFC range; COUNT, UNTIL,
    any interval, any WKST, time expansion), for every number n of passes whose periods 0 .. n-1 end within
    9999-12-31 (wlo r k = first day of period k).  _partial: the last, cut-off week of year 9999 is excluded. *)
-Theorem C01_rrule_iter_correct_weekly_partial : forall r rl limit n,
-  normalize r = Ok rl -> wfam r ->
-  (n <> 0%nat -> wlo r (Z.of_nat n - 1) + 6 <= max_ord) ->
-  fst (iterate rl limit n) = fst (spec_iter r limit n).
-Proof. exact weekly_iter_correct. Qed.
-Print Assumptions C01_rrule_iter_correct_weekly_partial.
+(* C01_rrule_iter_correct_weekly_partial: superseded by the headline theorems; still proved in coq/rr, no longer restated here *)
 
 (* ---- sub-daily families (rset builder): the run theorems *)
 Theorem C01_advance_correct_minutely : forall (r : raw) (rl : rule),
@@ -812,72 +776,30 @@ Print Assumptions C01_advance_correct_secondly.
 
 (* what the model yields for an HOURLY / MINUTELY / SECONDLY rule of the guarded family is what the
    until/start/count gate lets through of the candidates of periods 0 .. k_end-1, in order *)
-Theorem C01_hourly_iter_family_partial : forall r rl, normalize r = Ok rl -> sfam r HOURLY ->
-  forall limit n, exists k_end cnt' st out, 0 <= k_end /\
-    gate_list rl (flat_map (period_cands r) (zrange 0 k_end)) (r_count r) [] = (out, cnt', st) /\
-    fst (iterate rl limit n) = rev out.
-Proof. exact hourly_iter_family_partial. Qed.
-Print Assumptions C01_hourly_iter_family_partial.
+(* C01_hourly_iter_family_partial: superseded by the headline theorems; still proved in coq/rr, no longer restated here *)
 
-Theorem C01_minutely_iter_family_partial : forall r rl, normalize r = Ok rl -> sfam r MINUTELY ->
-  forall limit n, exists k_end cnt' st out, 0 <= k_end /\
-    gate_list rl (flat_map (period_cands r) (zrange 0 k_end)) (r_count r) [] = (out, cnt', st) /\
-    fst (iterate rl limit n) = rev out.
-Proof. exact minutely_iter_family_partial. Qed.
-Print Assumptions C01_minutely_iter_family_partial.
+(* C01_minutely_iter_family_partial: superseded by the headline theorems; still proved in coq/rr, no longer restated here *)
 
-Theorem C01_secondly_iter_family_partial : forall r rl, normalize r = Ok rl -> sfam r SECONDLY ->
-  forall limit n, exists k_end cnt' st out, 0 <= k_end /\
-    gate_list rl (flat_map (period_cands r) (zrange 0 k_end)) (r_count r) [] = (out, cnt', st) /\
-    fst (iterate rl limit n) = rev out.
-Proof. exact secondly_iter_family_partial. Qed.
-Print Assumptions C01_secondly_iter_family_partial.
+(* C01_secondly_iter_family_partial: superseded by the headline theorems; still proved in coq/rr, no longer restated here *)
 
 (* ... in terms of the specification only *)
-Theorem C01_subdaily_iter_family_take_partial : forall r rl fr, normalize r = Ok rl -> sfam r fr ->
-  fr = HOURLY \/ fr = MINUTELY \/ fr = SECONDLY ->
-  forall limit n, exists k_end, 0 <= k_end /\
-    fst (iterate rl limit n) =
-    rev (fst (fst (sp_take r (filter (inst_le (sp_start r))
-                                (flat_map (period_cands r) (zrange 0 k_end))) (r_count r) []))).
-Proof. exact subdaily_iter_family_take_partial. Qed.
-Print Assumptions C01_subdaily_iter_family_take_partial.
+(* C01_subdaily_iter_family_take_partial: superseded by the headline theorems; still proved in coq/rr, no longer restated here *)
 
 (* closing statement for sub-daily rules: for every fuel and limit, what the model has yielded is a
    PREFIX of the specification's sequence (soundness and order of every yielded instant, including the
    COUNT / UNTIL / year-9999 / ValueError stops).  _partial w.r.t. rrule_iter_correct: the converse
    (every instant of the specification is eventually yielded) is not proved, and equality at EQUAL fuel
    is false for sub-daily rules (the model tests `limit` per pass, the specification per day). *)
-Theorem C01_subdaily_prefix_of_spec_partial : forall r rl fr, normalize r = Ok rl -> sfam r fr ->
-  fr = HOURLY \/ fr = MINUTELY \/ fr = SECONDLY ->
-  forall limit n, exists L d rest, fst (spec_iter r L d) = fst (iterate rl limit n) ++ rest.
-Proof. exact subdaily_prefix_of_spec. Qed.
-Print Assumptions C01_subdaily_prefix_of_spec_partial.
+(* C01_subdaily_prefix_of_spec_partial: superseded by the headline theorems; still proved in coq/rr, no longer restated here *)
 
 (* ---- sub-daily (rset builder): the converse, the stream equality, the advance step as one statement *)
-Theorem C01_subdaily_spec_prefix_of_iterate : forall r rl fr, normalize r = Ok rl -> sfam r fr ->
-  fr = HOURLY \/ fr = MINUTELY \/ fr = SECONDLY ->
-  forall L d, exists limit n rest, fst (iterate rl limit n) = fst (spec_iter r L d) ++ rest.
-Proof. exact subdaily_spec_prefix_of_iterate. Qed.
-Print Assumptions C01_subdaily_spec_prefix_of_iterate.
+(* C01_subdaily_spec_prefix_of_iterate: superseded by the headline theorems; still proved in coq/rr, no longer restated here *)
 
 (* rrule_iter_correct for the sub-daily families, as equality of the two STREAMS (position by position,
    unbounded in limit / fuel / days); equality at equal fuel is false for sub-daily rules *)
-Theorem C01_rrule_iter_correct_subdaily_stream_partial : forall r rl fr, normalize r = Ok rl -> sfam r fr ->
-  fr = HOURLY \/ fr = MINUTELY \/ fr = SECONDLY ->
-  forall i x,
-    (exists limit n, nth_error (fst (iterate rl limit n)) i = Some x) <->
-    (exists L d, nth_error (fst (spec_iter r L d)) i = Some x).
-Proof. exact subdaily_iter_correct_family. Qed.
-Print Assumptions C01_rrule_iter_correct_subdaily_stream_partial.
+(* C01_rrule_iter_correct_subdaily_stream_partial: superseded by the headline theorems; still proved in coq/rr, no longer restated here *)
 
-Theorem C01_subdaily_nth_agree : forall r rl fr, normalize r = Ok rl -> sfam r fr ->
-  fr = HOURLY \/ fr = MINUTELY \/ fr = SECONDLY ->
-  forall limit n L d i x y,
-    nth_error (fst (iterate rl limit n)) i = Some x ->
-    nth_error (fst (spec_iter r L d)) i = Some y -> x = y.
-Proof. exact subdaily_nth_agree. Qed.
-Print Assumptions C01_subdaily_nth_agree.
+(* C01_subdaily_nth_agree: superseded by the headline theorems; still proved in coq/rr, no longer restated here *)
 
 (* the specification's sequence does not depend on limit / fuel (any two runs are prefix-comparable) *)
 Theorem C01_spec_iter_comparable : forall r L d L' d',
@@ -916,35 +838,18 @@ Print Assumptions C01_poslist_is_select_pos.
 (* ---- the loop theorems with BYSETPOS and nth weekdays *)
 (* every MONTHLY rule of the specification's domain without BYEASTER (BYWEEKNO in the RFC range): plain and
    nth weekdays, BYSETPOS, COUNT, UNTIL, any interval; EVERY fuel *)
-Theorem C01_rrule_iter_correct_monthly_all_partial : forall r rl limit n,
-  normalize r = Ok rl -> mfam_all r ->
-  fst (iterate rl limit n) = fst (spec_iter r limit n).
-Proof. exact monthly_iter_correct_all. Qed.
-Print Assumptions C01_rrule_iter_correct_monthly_all_partial.
+(* C01_rrule_iter_correct_monthly_all_partial: superseded by the headline theorems; still proved in coq/rr, no longer restated here *)
 
 (* YEARLY without BYEASTER: plain BYDAY with anything else, or nth weekdays without BYMONTH; BYSETPOS free;
    EVERY fuel *)
-Theorem C01_rrule_iter_correct_yearly_full_partial : forall r rl limit n,
-  normalize r = Ok rl -> yfam_all r ->
-  fst (iterate rl limit n) = fst (spec_iter r limit n).
-Proof. exact yearly_iter_correct_full. Qed.
-Print Assumptions C01_rrule_iter_correct_yearly_full_partial.
+(* C01_rrule_iter_correct_yearly_full_partial: superseded by the headline theorems; still proved in coq/rr, no longer restated here *)
 
 (* DAILY with BYSETPOS (selection inside the day's time set); EVERY fuel *)
-Theorem C01_rrule_iter_correct_daily_setpos_partial : forall r rl limit n,
-  normalize r = Ok rl -> dfam_s r ->
-  fst (iterate rl limit n) = fst (spec_iter r limit n).
-Proof. exact daily_setpos_iter_correct. Qed.
-Print Assumptions C01_rrule_iter_correct_daily_setpos_partial.
+(* C01_rrule_iter_correct_daily_setpos_partial: superseded by the headline theorems; still proved in coq/rr, no longer restated here *)
 
 (* WEEKLY with BYSETPOS (fix 12b1f51: the first period starts at the week start): weeks within 9999-12-31,
    and -- with BYSETPOS -- a first week that begins on or after 0001-01-01 *)
-Theorem C01_rrule_iter_correct_weekly_setpos_partial : forall r rl limit n,
-  normalize r = Ok rl -> wfam_s r -> (r_bysetpos r <> None -> 1 <= ws0 r) ->
-  (n <> 0%nat -> wlo r (Z.of_nat n - 1) + 6 <= max_ord) ->
-  fst (iterate rl limit n) = fst (spec_iter r limit n).
-Proof. exact weekly_iter_correct_full. Qed.
-Print Assumptions C01_rrule_iter_correct_weekly_setpos_partial.
+(* C01_rrule_iter_correct_weekly_setpos_partial: superseded by the headline theorems; still proved in coq/rr, no longer restated here *)
 
 (* ---- YEARLY with BYMONTH and nth weekdays (FREQ=YEARLY;BYMONTH=3;BYDAY=-1SU: every daylight-saving rule) *)
 Theorem C01_nwdaymask_months_calendar : forall y months pairs,
@@ -970,51 +875,26 @@ Proof. exact day_filter_correct_yearly_bymonth_nth. Qed.
 Print Assumptions C01_day_filter_correct_yearly_bymonth_nth.
 
 (* every YEARLY rule of the specification's domain without BYEASTER (BYWEEKNO in the RFC range); EVERY fuel *)
-Theorem C01_rrule_iter_correct_yearly_all_partial : forall r rl limit n,
-  normalize r = Ok rl -> yfam_noe r ->
-  fst (iterate rl limit n) = fst (spec_iter r limit n).
-Proof. exact yearly_iter_correct_noe. Qed.
-Print Assumptions C01_rrule_iter_correct_yearly_all_partial.
+(* C01_rrule_iter_correct_yearly_all_partial: superseded by the headline theorems; still proved in coq/rr, no longer restated here *)
 
 (* ---- SUMMARY for FREQ in YEARLY..DAILY.  coarse_guard r n := spec_wf r, BYWEEKNO within -53..53, no BYEASTER,
    and: YEARLY or MONTHLY (nothing else), or WEEKLY with BYDAY without numeric prefixes, a first week that does
    not begin before 0001-01-01 when BYSETPOS is used, and the n passes' weeks ending within 9999-12-31, or DAILY
    with BYDAY without numeric prefixes.  COUNT, UNTIL, INTERVAL, WKST, BYSETPOS, BYMONTH, BYMONTHDAY, BYYEARDAY,
    BYWEEKNO, BYHOUR/BYMINUTE/BYSECOND are free. *)
-Theorem C01_rrule_iter_correct_coarse_partial : forall r rl limit n,
-  normalize r = Ok rl ->
-  spec_wf r = true /\ all_opt (r_byweekno r) weekno_safe = true /\ r_byeaster r = None /\
-  (r_freq r = YEARLY \/ r_freq r = MONTHLY \/
-   (r_freq r = WEEKLY /\ plain_only r = true /\ (r_bysetpos r <> None -> 1 <= ws0 r) /\
-    (n <> 0%nat -> wlo r (Z.of_nat n - 1) + 6 <= max_ord)) \/
-   (r_freq r = DAILY /\ plain_only r = true)) ->
-  fst (iterate rl limit n) = fst (spec_iter r limit n).
-Proof. exact rrule_iter_correct_coarse. Qed.
-Print Assumptions C01_rrule_iter_correct_coarse_partial.
+(* C01_rrule_iter_correct_coarse_partial: superseded by the headline theorems; still proved in coq/rr, no longer restated here *)
 
 (* "in order": the specification's sequence is strictly increasing (every rule of the domain with FREQ coarser
    than HOURLY), hence so is what the generator yields under the guard above; no duplicates *)
-Theorem C01_spec_iter_strictly_increasing : forall r, spec_wf r = true -> r_freq r <= DAILY ->
-  forall limit n, isorted (fst (spec_iter r limit n)).
-Proof. exact spec_iter_sorted. Qed.
-Print Assumptions C01_spec_iter_strictly_increasing.
+(* C01_spec_iter_strictly_increasing: superseded by the headline theorems; still proved in coq/rr, no longer restated here *)
 
-Theorem C01_rrule_strictly_increasing_partial : forall r rl limit n,
-  normalize r = Ok rl -> coarse_guard r n -> isorted (fst (iterate rl limit n)).
-Proof. exact rrule_strictly_increasing_coarse. Qed.
-Print Assumptions C01_rrule_strictly_increasing_partial.
+(* C01_rrule_strictly_increasing_partial: superseded by the headline theorems; still proved in coq/rr, no longer restated here *)
 
-Theorem C01_rrule_nodup_partial : forall r rl limit n,
-  normalize r = Ok rl -> coarse_guard r n -> NoDup (fst (iterate rl limit n)).
-Proof. exact rrule_nodup_coarse. Qed.
-Print Assumptions C01_rrule_nodup_partial.
+(* C01_rrule_nodup_partial: superseded by the headline theorems; still proved in coq/rr, no longer restated here *)
 
 (* rrule_only_valueerror, strong form: under the guard of the summary theorem the iteration raises NO exception
    (no IndexError / TypeError / ValueError): it ends by COUNT, UNTIL, the year-9999 stop, limit or fuel *)
-Theorem C01_rrule_no_exception_partial : forall r rl limit n,
-  normalize r = Ok rl -> coarse_guard r n -> forall e, snd (iterate rl limit n) <> TRaised e.
-Proof. exact rrule_no_exception_coarse. Qed.
-Print Assumptions C01_rrule_no_exception_partial.
+(* C01_rrule_no_exception_partial: superseded by the headline theorems; still proved in coq/rr, no longer restated here *)
 
 (* the constructor accepts every rule of the specification's domain with FREQ coarser than HOURLY *)
 Theorem C01_normalize_total_coarse : forall r, spec_wf r = true -> (r_freq r <? HOURLY) = true ->
@@ -1023,10 +903,7 @@ Proof. exact normalize_total_coarse. Qed.
 Print Assumptions C01_normalize_total_coarse.
 
 (* constructor + iteration *)
-Theorem C01_rrule_total_coarse_partial : forall r limit n, coarse_guard r n ->
-  exists rl, normalize r = Ok rl /\ forall e, snd (iterate rl limit n) <> TRaised e.
-Proof. exact rrule_total_coarse. Qed.
-Print Assumptions C01_rrule_total_coarse_partial.
+(* C01_rrule_total_coarse_partial: superseded by the headline theorems; still proved in coq/rr, no longer restated here *)
 
 (* ---- numeric BYDAY prefixes under FREQ finer than MONTHLY are ignored (rrule.py 597-605), by the constructor
    and by the specification: the `plain_only` hypothesis of the WEEKLY / DAILY / sub-daily theorems can go *)
@@ -1072,13 +949,7 @@ Proof. exact rrule_total_coarse_all. Qed.
 Print Assumptions C01_rrule_total_headline_partial.
 
 (* sub-daily FREQ without the `plain_only` hypothesis: same stream *)
-Theorem C01_rrule_iter_correct_subdaily_stream_all_partial : forall r rl fr, normalize r = Ok rl -> sfam_all r fr ->
-  fr = HOURLY \/ fr = MINUTELY \/ fr = SECONDLY ->
-  forall i x,
-    (exists limit n, nth_error (fst (iterate rl limit n)) i = Some x) <->
-    (exists L d, nth_error (fst (spec_iter r L d)) i = Some x).
-Proof. exact subdaily_iter_correct_all. Qed.
-Print Assumptions C01_rrule_iter_correct_subdaily_stream_all_partial.
+(* C01_rrule_iter_correct_subdaily_stream_all_partial: superseded by the headline theorems; still proved in coq/rr, no longer restated here *)
 
 (* (4) rrule_invalid_dates_skipped / whole seconds: every yielded instant is a representable day 0001-01-01 ..
    9999-12-31 that satisfies the rule's day predicate, carries a time of the rule's time set (0 <= seconds < 86400)
@@ -1166,6 +1037,38 @@ Theorem C01_spec_iter_strictly_increasing_all : forall r, spec_wf r = true ->
 Proof. exact spec_iter_sorted_all. Qed.
 Print Assumptions C01_spec_iter_strictly_increasing_all.
 
+(* ==== BYEASTER (a dateutil extension, not RFC 5545) for FREQ in YEARLY..DAILY, inside the year range of C19's
+   Easter theorem (1583..4098; the cross-year week of a WEEKLY rule needs next year's Easter: passes up to the end
+   of 4097): model = specification at equal fuel.  BYDAY without numeric prefixes; BYSETPOS, COUNT, UNTIL, INTERVAL,
+   WKST and the other BY-parts free.  easter_guard r n is written out below. *)
+Theorem C01_day_filter_correct_extension_easter : forall r rl y month ii i,
+  normalize r = Ok rl -> spec_wf r = true -> plain_only r = true ->
+  all_opt (r_byweekno r) weekno_safe = true -> (r_byeaster r = None \/ (1583 <= y /\ y + 1 <= 4098)) ->
+  1 <= y <= 9999 -> rebuild rl ii_init y month = Ok ii ->
+  year_len y <= i < year_len y + 7 -> used_index (shape_of y) (r_wkst r) i = true ->
+  day_rejected rl ii i = Ok (negb (day_ok r (jan1 y + i))).
+Proof. exact day_filter_ext_e. Qed.
+Print Assumptions C01_day_filter_correct_extension_easter.
+
+(* C01_rrule_iter_correct_easter_headline_partial: superseded by the headline theorems; still proved in coq/rr, no longer restated here *)
+
+(* ... and without the BYDAY restriction for WEEKLY / DAILY (numeric prefixes are ignored there; builder rset,
+   RRWkEasterStrip.v) *)
+Theorem C01_rrule_iter_correct_easter_headline_all_partial : forall r rl limit n,
+  normalize r = Ok rl ->
+  spec_wf r = true /\ all_opt (r_byweekno r) weekno_safe = true /\
+  ((r_freq r = YEARLY /\ plain_only r = true /\ 1583 <= r_y r <= 4098 /\
+    forall j, 0 <= j < Z.of_nat n -> r_y r + (j + 1) * r_interval r <= 4098) \/
+   (r_freq r = MONTHLY /\ plain_only r = true /\ 1583 <= r_y r <= 4098 /\
+    forall j, 0 <= j < Z.of_nat n -> midx r (j + 1) / 12 <= 4098) \/
+   (r_freq r = WEEKLY /\ (r_bysetpos r <> None -> 1 <= ws0 r) /\ 1584 <= r_y r /\ r_y r + 1 <= 4098 /\
+    (n <> 0%nat -> wlo r (Z.of_nat n) <= we_last)) \/
+   (r_freq r = DAILY /\ 1583 <= r_y r <= 4098 /\
+    (n <> 0%nat -> sp_ord0 r + Z.of_nat n * r_interval r <= e_last))) ->
+  fst (iterate rl limit n) = fst (spec_iter r limit n).
+Proof. exact rrule_iter_correct_coarse_easter_all. Qed.
+Print Assumptions C01_rrule_iter_correct_easter_headline_all_partial.
+
 (* ==== C01_gen_* blocks (translators: gen_rr_init / gen_rr_masks / gen_rr_iter) go BELOW this line; rr adds nothing after it ==== *)
 
 (* ---- gen_rr_init (owner: rcache; harness/gen_rr_init.py -> coq/gen/RRInitGen.v, proofs in
@@ -1208,3 +1111,118 @@ Theorem C01_gen_init_example :
                RReplace.o_bysetpos o = RReplace.RVal [-1].
 Proof. exact RRInitGenThm.gen_init_example. Qed.
 Print Assumptions C01_gen_init_example.
+
+(* ---- gen_rr_masks (owner: rstr; harness/gen_rr_masks.py -> coq/gen/RRMasksGen.v, proofs in
+   coq/rstr/RRMasksGenThm.v).  Class _iterinfo of /repo's rrule.py is translated from its AST on every run
+   (rebuild with the year block, the week-number mask incl. the two cross-year patches, the nth-weekday mask,
+   the easter mask; the four day sets and the three time sets; every loop and every large `if` is a definition
+   of its own); the generated code equals the hand model RRMasks for ALL rules, iterinfo records and integer
+   arguments -- so the mask theorems above (wnomask / nwdaymask / eastermask / day sets / time sets) are about
+   the code as it is in /repo now.  _iterinfo.__init__ / __slots__ are hand-modelled (ii_init) and AST-pinned.
+   A source change breaks only the theorems below. *)
+From V Require rstr.RRMasksGenBase gen.RRMasksGen rstr.RRMasksGenThm.
+
+Theorem C01_gen_masks_rebuild : forall rl ii year month,
+  RRMasksGen.gen_rebuild rl ii year month = rebuild rl ii year month.
+Proof. exact RRMasksGenThm.gen_rebuild_spec. Qed.
+Print Assumptions C01_gen_masks_rebuild.
+
+(* the pieces of rebuild, as the translator cuts them *)
+Theorem C01_gen_masks_wnomask : forall rl ii year ylen nylen ywd wdm,
+  RRMasksGen.gen_rebuild_if3 rl ii year ylen nylen ywd wdm =
+  if negb (truthy (byweekno rl)) then Ok None
+  else bind (build_wnomask year ylen nylen ywd (wkst rl) wdm (opt_list (byweekno rl))) (fun m => Ok (Some m)).
+Proof. exact RRMasksGenThm.if3_spec. Qed.
+Print Assumptions C01_gen_masks_wnomask.
+
+Theorem C01_gen_masks_nwdaymask_range : forall rl ii wdm mask rg pairs, bynweekday rl = Some pairs ->
+  RRMasksGen.gen_rebuild_loop6 rl ii wdm mask rg = nwd_range wdm pairs mask rg.
+Proof. exact RRMasksGenThm.loop6_spec. Qed.
+Print Assumptions C01_gen_masks_nwdaymask_range.
+
+Theorem C01_gen_masks_eastermask : forall rl ii year ylen yord,
+  RRMasksGen.gen_rebuild_if6 rl ii year ylen yord =
+  (if truthy (byeaster rl) then
+     do eo <- easter_ord year;
+     do ne <- (if year <? T_MAXYEAR then do eo2 <- easter_ord (year + 1); Ok (Some (eo2 - yord)) else Ok None);
+     do m <- build_eastermask (eo - yord) ne ylen (opt_list (byeaster rl));
+     Ok (Some m)
+   else Ok (eastermask ii)).
+Proof. exact RRMasksGenThm.if6_spec. Qed.
+Print Assumptions C01_gen_masks_eastermask.
+
+Theorem C01_gen_masks_daysets : forall rl ii y m d,
+  RRMasksGen.gen_ydayset rl ii y m d = ydayset ii /\ RRMasksGen.gen_mdayset rl ii y m d = mdayset ii m /\
+  RRMasksGen.gen_wdayset rl ii y m d = wdayset rl ii y m d /\ RRMasksGen.gen_ddayset rl ii y m d = ddayset ii y m d.
+Proof.
+  intros. exact (conj (RRMasksGenThm.gen_ydayset_spec rl ii y m d) (conj (RRMasksGenThm.gen_mdayset_spec rl ii y m d)
+    (conj (RRMasksGenThm.gen_wdayset_spec rl ii y m d) (RRMasksGenThm.gen_ddayset_spec rl ii y m d)))).
+Qed.
+Print Assumptions C01_gen_masks_daysets.
+
+Theorem C01_gen_masks_timesets : forall rl ii h m s,
+  RRMasksGen.gen_htimeset rl ii h m s = htimeset rl h /\ RRMasksGen.gen_mtimeset rl ii h m s = mtimeset rl h m /\
+  RRMasksGen.gen_stimeset rl ii h m s = stimeset h m s.
+Proof.
+  intros. exact (conj (RRMasksGenThm.gen_htimeset_spec rl ii h m s) (conj (RRMasksGenThm.gen_mtimeset_spec rl ii h m s)
+    (RRMasksGenThm.gen_stimeset_spec rl ii h m s))).
+Qed.
+Print Assumptions C01_gen_masks_timesets.
+
+(* non-vacuity: YEARLY from 2024-01-01, BYWEEKNO (1, -1), BYDAY +1MO, BYEASTER 0; first rebuild for 2025 *)
+Theorem C01_gen_masks_example :
+  exists ii', RRMasksGen.gen_rebuild RRMasksGenThm.rl0 ii_init 2025 1 = Ok ii' /\ yearlen ii' = 365 /\
+              yearweekday ii' = 2 /\
+              (exists m, wnomask ii' = Some m /\ firstn 6 m = [1; 1; 1; 1; 1; 0] /\ nth 362 m 0 = 1) /\
+              (exists m, nwdaymask ii' = Some m /\ nth 5 m 0 = 1 /\ nth 12 m 0 = 0) /\
+              (exists m, eastermask ii' = Some m /\ nth 109 m 0 = 1).
+Proof. exact RRMasksGenThm.gen_rebuild_example. Qed.
+Print Assumptions C01_gen_masks_example.
+
+(* ==== C01_gen_iter_*: rrule._iter / __mod_distance regenerated from the source on every check
+   (harness/gen_rr_iter.py -> gen/RRIterGen.v; proofs in factory/RRIterGenThm.v; `factory` builder) ==== *)
+From V Require Import factory.RRGenLib gen.RRIterGen factory.RRIterGenThm.
+
+Theorem C01_gen_iter_filter_clauses : forall rl ii i,
+  gen_cl_1 rl ii i = cl_month rl ii i /\ gen_cl_2 rl ii i = cl_weekno rl ii i /\
+  gen_cl_3 rl ii i = cl_weekday rl ii i /\ gen_cl_4 rl ii i = cl_easter rl ii i /\
+  gen_cl_5 rl ii i = cl_monthday rl ii i /\ gen_cl_6 rl ii i = cl_yearday rl ii i.
+Proof. exact gen_filter_clauses_lemma. Qed.
+Print Assumptions C01_gen_iter_filter_clauses.
+
+Theorem C01_gen_iter_day_rejected : forall rl ii i, gen_day_rejected rl ii i = day_rejected rl ii i.
+Proof. exact gen_day_rejected_lemma. Qed.
+Print Assumptions C01_gen_iter_day_rejected.
+
+Theorem C01_gen_iter_gate : forall rl x cnt out, gen_gate_one rl x cnt out = gate_one rl x cnt out.
+Proof. exact gen_gate_one_lemma. Qed.
+Print Assumptions C01_gen_iter_gate.
+
+Theorem C01_gen_iter_advance : forall rl s filtered cnt out,
+  (freq rl = YEARLY -> gen_adv_YEARLY rl s filtered cnt out = advance rl s filtered cnt out) /\
+  (freq rl = MONTHLY -> gen_adv_MONTHLY rl s filtered cnt out = advance rl s filtered cnt out) /\
+  (freq rl = WEEKLY -> gen_adv_WEEKLY rl s filtered cnt out = advance rl s filtered cnt out) /\
+  (freq rl = DAILY -> gen_adv_DAILY rl s filtered cnt out = advance rl s filtered cnt out) /\
+  (freq rl = HOURLY -> gen_adv_HOURLY rl s filtered cnt out = advance rl s filtered cnt out) /\
+  (freq rl = MINUTELY -> gen_adv_MINUTELY rl s filtered cnt out = advance rl s filtered cnt out) /\
+  (freq rl = SECONDLY -> gen_adv_SECONDLY rl s filtered cnt out = advance rl s filtered cnt out).
+Proof. exact gen_advance_lemma. Qed.
+Print Assumptions C01_gen_iter_advance.
+
+Theorem C01_gen_iter_fix_step : forall k year month day dm,
+  fix_loop (S k) year month day dm =
+  if dm <? day then
+    match gen_fix_step year month day dm with
+    | None => FixMax
+    | Some (y, m, d, dm') => fix_loop k y m d dm'
+    end
+  else FixOk year month day.
+Proof. exact gen_fix_step_lemma. Qed.
+Print Assumptions C01_gen_iter_fix_step.
+
+Theorem C01_gen_iter_mod_distance_step : forall rl k base byxxx value acc,
+  mod_distance_loop (S k) (interval rl) base byxxx value acc =
+  let '(a, v, hit) := gen_md_step rl base byxxx value acc in
+  if hit then Some (a, v) else mod_distance_loop k (interval rl) base byxxx v a.
+Proof. exact gen_md_step_lemma. Qed.
+Print Assumptions C01_gen_iter_mod_distance_step.
